@@ -656,4 +656,35 @@ theorem rdMeta_of_spec (md : List (Str × Str × List Str))
     rw [he] at this
     exact this
 
+theorem not_fmt_of_not_dollar (l t : Str) (h : firstIs '$' l = false) (ht : firstIs '$' t = false ∨ l ≠ []) :
+    isFmt (l ++ t) = false := by
+  cases l with
+  | nil =>
+    rcases ht with ht | ht
+    · cases t with
+      | nil => decide
+      | cons c cs =>
+        have hc : c ≠ '$' := by intro hc; subst hc; simp [firstIs] at ht
+        simp [isFmt, startsWith, sL, List.isPrefixOf, Ne.symm hc]
+    · exact absurd rfl ht
+  | cons c cs =>
+    have hc : c ≠ '$' := by intro hc; subst hc; simp [firstIs] at h
+    simp [isFmt, startsWith, sL, List.isPrefixOf, Ne.symm hc]
+
+/-- no line written for RDF data in the specification's domain is taken for a record marker (`$RFMT` / `$MFMT`) -/
+theorem rdfChunkLines_noFmt (k v : Str) (vs : List Str) (hv : ∀ x ∈ vs, firstIs '$' x = false) :
+    ∀ l ∈ rdfChunkLines k (v :: vs), isFmt l = false := by
+  intro l hl
+  unfold rdfChunkLines at hl
+  simp only [List.mem_cons, List.mem_map] at hl
+  rcases hl with h | h | ⟨x, hx, h⟩
+  · subst h
+    unfold isFmt
+    rw [List.append_assoc, startsWith_append_of_le _ _ _ (by decide), startsWith_append_of_le _ _ _ (by decide)]; decide
+  · subst h
+    unfold isFmt
+    rw [List.append_assoc, startsWith_append_of_le _ _ _ (by decide), startsWith_append_of_le _ _ _ (by decide)]; decide
+  · subst h
+    exact not_fmt_of_not_dollar x ['\n'] (hv x hx) (Or.inl (by decide))
+
 end ChythonModel.Proofs.C11
